@@ -226,6 +226,12 @@ class Evaluator:
             return self.byteset(e['a'], env)
         if k == 'index':
             return frozenset([self.integer(e, env)])
+        if k == 'mcall' and e.get('name') in ('clone', 'to_owned', 'by_ref', 'into') and not e.get('args'):
+            return self.byteset(e['recv'], env)
+        if k == 'path' and e.get('res') == 'Local' and env and isinstance(env.get(e.get('path')), dict) and 'k' in env[e['path']]:
+            return self.byteset(env[e['path']], {kk: vv for kk, vv in env.items() if kk != e['path']})
+        if k == 'path' and e.get('res') == 'Local' and env and isinstance(env.get(e.get('path')), frozenset):
+            return env[e['path']]
         raise Unanalysable(f'cannot evaluate {k} at line {e.get("l")} to a byte class')
 
 
